@@ -192,5 +192,84 @@ theorem fromRowsGo_ok (C : Codecs V P) (p : Props P) (rows : List FromRow) (s0 s
         rw [this, hv]; simp [Fields.set]
       · exact ih _ hnd.2 h f he
 
+/-! ### the flat round trip (core of `props_roundtrip_partial`) -/
+
+theorem tableOK_nodup_g {T : KindTable} (h : tableOK T = true) : (T.toRows.map (·.gprop)).Nodup := by
+  simp only [tableOK, Bool.and_eq_true, decide_eq_true_eq] at h
+  exact h.1.1.1.1.1.1
+
+theorem tableOK_nodup_k {T : KindTable} (h : tableOK T = true) : (T.fromRows.map (·.key)).Nodup := by
+  simp only [tableOK, Bool.and_eq_true, decide_eq_true_eq] at h
+  exact h.1.1.1.1.1.2
+
+theorem tableOK_pair {T : KindTable} (h : tableOK T = true) (f : FromRow) (hf : f ∈ T.fromRows) :
+    ∃ r ∈ T.toRows, r.gprop = f.gprop ∧ f.key ∈ r.keys ∧ (f.absent = Absent.none ∨ r.always = true) := by
+  simp only [tableOK, Bool.and_eq_true, List.all_eq_true, List.any_eq_true] at h
+  obtain ⟨r, hr, hp⟩ := h.1.1.1.1.2 f hf
+  simp only [pairs, Bool.and_eq_true, Bool.or_eq_true, beq_iff_eq, List.contains_iff_mem] at hp
+  exact ⟨r, hr, hp.1.1.1, hp.1.1.2, hp.2⟩
+
+theorem readRow_some (C : Codecs V P) (p : Props P) (f : FromRow) (x : P) (h : p f.gprop = some x) :
+    readRow C p f = readVal C f x := by
+  unfold readRow decodeRow readVal
+  rw [h]
+  rfl
+
+theorem readRow_none (C : Codecs V P) (p : Props P) (f : FromRow) (h : p f.gprop = none) (ha : f.absent = Absent.none) :
+    readRow C p f = setRow C f none := by
+  unfold readRow decodeRow
+  rw [h, ha]
+
+/-- every from-row reads back the field it belongs to -/
+theorem readRow_toProps (C : Codecs V P) (T : KindTable) (s : Fields V) (hT : tableOK T = true)
+    (hlaw : FieldLaw C T s) (hfate : FateShared T s) (hreq : Required T s) (f : FromRow) (hf : f ∈ T.fromRows) :
+    readRow C (toProps C T s) f = .ok (s f.key) := by
+  obtain ⟨r, hr, hgp, hkey, habs⟩ := tableOK_pair hT f hf
+  have hval := toProps_mem C T s r (tableOK_nodup_g hT) hr
+  rw [hgp] at hval
+  have hl := hlaw r hr f hf hgp.symm
+  unfold rowOut at hval
+  cases hv : rowVals s r.keys with
+  | some vs =>
+    rw [hv] at hval hl
+    rw [readRow_some C _ f _ hval]
+    exact hl
+  | none =>
+    rw [hv] at hval hl
+    cases hal : r.always with
+    | true =>
+      rw [hal] at hval
+      rw [readRow_some C _ f _ hval]
+      exact hl hal
+    | false =>
+      rw [hal] at hval
+      have ha : f.absent = Absent.none := by
+        rcases habs with h | h
+        · exact h
+        · rw [hal] at h; cases h
+      rw [readRow_none C _ f hval ha, hfate r hr hv hal f.key hkey]
+      unfold setRow
+      cases hn : f.noneOk with
+      | true => rfl
+      | false => exact absurd hv (hreq f hf hn r hr hgp)
+
+theorem fromProps_toProps (C : Codecs V P) (T : KindTable) (s : Fields V) (hT : tableOK T = true)
+    (hlaw : FieldLaw C T s) (hfate : FateShared T s) (hreq : Required T s) :
+    fromProps C T (toProps C T s) = .ok (restrict T s) := by
+  obtain ⟨s', hs', hkeys, hframe⟩ := fromRowsGo_spec C (toProps C T s) s T.fromRows Fields.empty (tableOK_nodup_k hT)
+    (fun f hf => readRow_toProps C T s hT hlaw hfate hreq f hf)
+  unfold fromProps
+  rw [hs']
+  congr 1
+  funext k
+  unfold restrict
+  by_cases hk : k ∈ T.fromRows.map (·.key)
+  · rw [if_pos hk]
+    obtain ⟨f, hf, rfl⟩ := List.mem_map.mp hk
+    exact hkeys f hf
+  · rw [if_neg hk, hframe k hk]
+    rfl
+
+
 end
 end FimVerif.C02
